@@ -219,6 +219,21 @@ fn gen(max_opts: usize, lead4: bool) -> Vec<String> {
     for s in spaced {
         out.push(s.replace("( ", "(").replace(" )", ")"));
     }
+    // blanks before / after / between the words of option-led inputs; other thread counts
+    let led: Vec<String> = out.iter().filter(|s| s.starts_with("-depth") || s.starts_with("-threads")).take(3000).cloned().collect();
+    for s in led {
+        out.push(format!(" {s}"));
+        out.push(format!("\t\n{s} "));
+        out.push(s.replace(' ', "  "));
+    }
+    for n in ["0", "00", "1", "2", "65535", "65536", "4294967294"] {
+        for base in ["-name x", "-true", "-print0", "-name x -fprint f"] {
+            out.push(format!("-threads {n} {base}"));
+            out.push(format!("{base} -threads {n}"));
+            out.push(format!("-depth -threads 5 {base} -threads {n}"));
+            out.push(format!(" -threads {n} -depth {base}"));
+        }
+    }
     // options only
     for a in OPTS {
         out.push(a.to_string());
